@@ -65,6 +65,11 @@ theorem setLinkToSymlink_frame (ht : touches .setLinkToSymlink G = false) : view
   entry_frame setLinkToSymlink
 theorem setFflags_frame (s c : Nat) (ht : touches (.setFflags s c) G = false) : view G (setFflags e s c) = view G e := by
   entry_frame setFflags
+theorem copyFflagsText_frame (s : Bytes) (ht : touches (.copyFflagsText s) G = false) :
+    view G (copyFflagsText e s) = view G e := by
+  entry_frame copyFflagsText
+theorem fflagsText_frame (ht : touches .fflagsText G = false) : view G (fflagsText e).1 = view G e := by
+  entry_frame fflagsText
 theorem setSymlinkType_frame (t : Int) (ht : touches (.setSymlinkType t) G = false) :
     view G (setSymlinkType e t) = view G e := by
   entry_frame setSymlinkType
